@@ -449,8 +449,8 @@ MANIFEST = {
     "is compared with an exact-Fraction reference (cumulative ops / elapsed). One case in 150 sends a runner-supplied throughput (0 and 0.0 included) through the real executor and sampler "
     "on a virtual clock and the real samples, cut into batches, through the real calculator; one case in 40 runs two generated streams as two consecutive steps through a real "
     "Driver coordinator (pickled UpdateSamples payloads, periodic post_process_samples, joinpoint_reached by every worker) and judges what reaches the store with the same oracle. "
-    "Tasks with runner-supplied throughput also get failed requests (no throughput, 0 ops). Holds on the executions produced, not beyond.",
-    "note": "Trusts the reference (cumulative ops / elapsed, 30 lines), Python Fractions, and that time_period = absolute_time - task start as AsyncExecutor records it.",
+    "Tasks with runner-supplied throughput also get failed requests (no throughput, 0 ops); in the request-durations class (time-ordered arrival) every sample's time_period also holds the duration of its request, so that absolute_time - time_period differs from sample to sample as in a race. Holds on the executions produced, not beyond.",
+    "note": "Trusts the reference (cumulative ops / elapsed, 30 lines), Python Fractions, and that time_period = absolute_time - task start as AsyncExecutor records it (request-durations class: the task start is the one implied by the earliest sample, as rally derives it).",
     "technique": "runtime monitor: reference-model oracle + conservation invariant on the calculator's carry list + metamorphic batching relation over generated streams",
     "design_ref": "DESIGN.md section 4 C06",
 }
